@@ -485,6 +485,10 @@ def _run_qint(case, rec):
                      'integer-valued beam array', b1=list(b1), b2=list(b2), lam=lam, dtype='int64')
 
 
+def _negated_q_vec(Qx, Qy, Qz):
+    return -sc.spatial.as_vectors(Qx, Qy, Qz)
+
+
 def _run_hkl(case, rec):
     ri, ui, bi, rep = case['R'], case['U'], case['B'], case['rep']
     bname, bmat = B_MATS[bi]
@@ -627,6 +631,13 @@ def _run_hkl(case, rec):
             'u_matrix': U, 'b_matrix': B, 'sample_rotation': R,
         },
     )
+    # a graph obtained earlier belongs to the caller: customising it (here: the k_f - k_i sign convention and a dropped
+    # node) may not change the graph handed out next
+    mine = tof_graph.elastic_hkl('wavelength')
+    mine['Q_vec'] = _negated_q_vec
+    mine.pop('ub_matrix', None)
+    mine2 = tof_graph.elastic_Q_vec('wavelength')
+    mine2['Q_vec'] = _negated_q_vec
     out = da.transform_coords(['hkl_vec', 'h', 'k', 'l', 'Q_vec', 'ub_matrix'], graph=tof_graph.elastic_hkl('wavelength'), keep_intermediate=True, keep_inputs=True, rename_dims=False)
     rec.transitions += 1
     rec.cls('graph_route')
